@@ -110,10 +110,10 @@ Definition step (o : op) : SM :=
   match o with
   | OCreate p => create p
   | OUpdatePlan id rs st _ => update_plan id rs st
-  | OUpdateBlock id st => update_block id st
-  | OUpdateChecks id st => update_checks id st
-  | OUpdateSequence id st => update_sequence id st
-  | OUpdateAction id st atts => update_action id st atts
+  | OUpdateBlock _ id st => update_block id st
+  | OUpdateChecks _ id st => update_checks id st
+  | OUpdateSequence _ id st => update_sequence id st
+  | OUpdateAction _ id st atts => update_action id st atts
   | ODelete id => delete id
   end.
 
